@@ -14,8 +14,8 @@ FnsA == {Fn("ret", 0, x) : x \in {"None", "zero", "v1"}}
               Fn("dfire", 1, "None")}
         \cup {Fn("dfire", d, "v1") : d \in 0..4}
         \cup {Fn("dfail", d, "e1") : d \in 0..4}
-ScenA == {Mk(f, T, ex, sel, st, re) : f \in FnsA, T \in 1..3, ex \in UpTo2({1, 2, 3, 5}), sel \in 0..1,
-                                      st \in {NoStop} \cup 0..4, re \in BOOLEAN}
+ScenA == {s \in {Mk(f, T, ex, sel, st, re) : f \in FnsA, T \in 1..3, ex \in UpTo2({1, 2, 3, 5}), sel \in 0..1,
+                                             st \in {NoStop} \cup 0..4, re \in BOOLEAN} : s.reenter => s.sel = 0}
 
 \* thorough: one more time unit everywhere
 FnsAT == {Fn("ret", 0, x) : x \in {"None", "zero", "v1"}}
@@ -40,11 +40,11 @@ ScenB2 == {Mk(f, 2, {}, 0, st, re) : f \in FnsB2, st \in {NoStop, 0, 1}, re \in 
 ScenC1 == {Mk(Fn("ret", 0, "v1"), 2, {}, 0, NoStop, FALSE), Mk(Fn("never", 0, "-"), 2, {}, 0, NoStop, FALSE)}
 ScenC2 == {Mk(Fn("ret", 0, "v2"), 2, {}, 0, NoStop, FALSE), Mk(Fn("never", 0, "-"), 2, {}, 0, 1, FALSE)}
 
-\* thorough: the second run over three timeouts and a selectable
-ScenB1T == {Mk(f, T, ex, sel, st, re) : f \in FnsB1, T \in {1, 2}, ex \in {{}, {5}}, sel \in 0..1,
-                                        st \in {NoStop, 0, 1}, re \in BOOLEAN}
-ScenB2T == {Mk(f, T, ex, sel, st, re) : f \in FnsB2, T \in 1..3, ex \in {{}, {2}, {5}}, sel \in 0..1,
-                                        st \in {NoStop, 0, 1, 2}, re \in BOOLEAN}
+\* thorough: the second run over three timeouts and four stop instants
+ScenB1T == {Mk(f, 2, ex, sel, st, FALSE) : f \in FnsB1, ex \in {{}, {5}}, sel \in 0..1, st \in {NoStop, 0, 1}}
+           \cup {Mk(f, 2, {}, 0, NoStop, TRUE) : f \in FnsB1}
+ScenB2T == {Mk(f, T, {}, 0, st, re) : f \in FnsB2, T \in 1..3, st \in {NoStop, 0, 1, 2}, re \in BOOLEAN}
+           \cup {Mk(f, 2, {5}, 1, NoStop, FALSE) : f \in FnsB2}
 
 \* ---- R: scenarios for the real-reactor tier: all event times pairwise distinct, >= 1 unit apart ---
 Wide(s) == LET ts == <<FnTime(s), s.T, s.stopAt>> IN
